@@ -96,6 +96,9 @@ func mergeConfigDict(opts *options, to, from *Config) Error {
 	if len(dict) == 0 {
 		return nil
 	}
+	// visit the settings in the order of their names: a setting that refers to another
+	// one (${other}) is merged with what the other holds at that moment
+	names := from.fields.names()
 
 	ok := false
 	if opts.configValueHandling == cfgReplaceValue {
@@ -108,7 +111,8 @@ func mergeConfigDict(opts *options, to, from *Config) Error {
 		}()
 	}
 
-	for k, v := range dict {
+	for _, k := range names {
+		v := dict[k]
 		ctx := context{
 			parent: cfgSub{to},
 			field:  k,
